@@ -324,7 +324,10 @@ def fuzz_job(ctx, target, runs, tag, seeded=True):
 def handle_crash(ctx, target, path, seen_sig):
     data = open(path, "rb").read()
     sd = os.path.join(ctx.scratch_dir(), "rerun")
-    res = [run_single(target, data, sd) for _ in range(3)]
+    res = []
+    for _ in range(3):
+        ctx.begin({"kind": "fuzz_job", "target": target, "tag": "rerun"})      # heartbeat for core's watchdog
+        res.append(run_single(target, data, sd, timeout=150))
     shutil.rmtree(sd, ignore_errors=True)
     kinds = [r[0] for r in res]
     if all(k == "violation" for k in kinds):
@@ -482,6 +485,8 @@ def run_fresh(ctx, cases, no_filter=False, probe=None):
     res = None
     try:
         for c in cases:
+            if hasattr(ctx, "begin") and ctx.tier != "replay":
+                ctx.begin(c)          # heartbeat
             res = r.run(c)
             if res[0] in ("died", "timeout"):
                 return res
